@@ -124,10 +124,8 @@ func JSONGetNaturalLanguageField(val *fastjson.Value, prop string) NaturalLangua
 			}
 		})
 	case fastjson.TypeString:
-		l := LangRefValue{}
-		if err := l.UnmarshalJSON(v.GetStringBytes()); err == nil {
-			n = append(n, l)
-		}
+		// GetStringBytes returns the decoded text: it must not be parsed as JSON a second time
+		n = append(n, LangRefValue{Ref: NilLangRef, Value: Content(v.GetStringBytes())})
 	}
 
 	return n
